@@ -12,7 +12,8 @@ EXPLANATION = ("Flush hand-shake. R1: every log_statement call carrying a contro
                "interval and after the flush event was popped; the pointer stored to is the one decoded from the record, and it is "
                "reset for event reuse. R4: a zero interval forces the flush on every path; flush_sink is invoked for every sink of "
                "every valid logger (collector never ends early, loop has no early exit). R5: FileSink::flush_sink -> "
-               "StreamSink::flush_sink -> flush -> fflush(_file); every successful write path marks the stream dirty.")
+               "StreamSink::flush_sink -> flush -> fflush(_file); every successful write path marks the stream dirty."
+               " R2e/R3c: the load that ends the caller's wait is an acquire load and the backend's store a release store.")
 NOT_DECIDED = ("The cross-thread clause (needs the C05 ordering theorem as behaviour), success of fflush itself (its result is "
                "ignored by design — noted, not a violation), that the backend keeps running.")
 ASSUMPTIONS = ["per-thread FIFO and timestamp order (C01-C05)"]
